@@ -68,6 +68,9 @@ def propose(w: S.SWorld, rng: random.Random, prof: Profile):
         for sc in [x for x in own if w.sid(x) in pub][:2]:
             cands.append((W["setshield"] / 2, (S.SETSHIELD, t, w.sid(sc), int(not sc._shield))))
             cands.append((W["setdeadline"] / 2, (S.SETDEADLINE, t, w.sid(sc), rng.choice([-1, now, now + 1, now + 3, now + 6]))))
+        inactive_pub = [i for i in pub if not w.scopes[i - 1]._active]
+        if inactive_pub:
+            cands.append((W["setdeadline"] * 0.3, (S.SETDEADLINE, t, rng.choice(inactive_pub), rng.choice([-1, now + 1, now + 3, now + 6]))))
         if len(w.groups) < W["max_groups"] and depth < W["max_depth"]:
             cands.append((W["gnew"], (S.GNEW, t, 0, 0)))
         for gi, tg in enumerate(w.groups):
